@@ -9,8 +9,10 @@
     identifiers, first layer in [glyphs] and nobody else, distinct layer directories and glif file
     names.  [font_equiv] is the equality of the property: everything but the creator, numbers /
     colours under the part equalities, feature text up to line endings, stores byte-identical. *)
-Require Import Norad.Model.Base Norad.Model.FontRT Norad.Model.FontToy Norad.Model.FontNum
-               Norad.Proofs.FontRTP Norad.Proofs.FontToyP Norad.Proofs.FontNumP.
+Require Import Norad.Model.GlifSpec Norad.Model.GlifEncode Norad.Proofs.GlifEncodeP Norad.Proofs.GlifRoundtripP.
+Require Import Norad.Model.Base Norad.Model.FontRT Norad.Model.FontToy Norad.Model.FontNum Norad.Model.FontRealInfo Norad.Model.FontReal
+               Norad.Proofs.FontRealInfoP
+               Norad.Proofs.FontRTP Norad.Proofs.FontToyP Norad.Proofs.FontNumP Norad.Proofs.FontRealP.
 Open Scope N_scope.
 
 Theorem C01_roundtrip : forall (S : sig), sig_ok S -> forall o (f : font S),
@@ -106,3 +108,60 @@ Example C01_empty_font_file_set :
   exists t, save toy_sig 0 toy_empty = Ok t /\
     paths_of toy_sig norad_names t = [[s "metainfo.plist"]; [s "layercontents.plist"]; [s "glyphs"; s "contents.plist"]].
 Proof. eexists. split; vm_compute; reflexivity. Qed.
+
+(** ---------- with the REAL part models plugged in (Model/FontReal.v) ----------
+
+    [real_sig pf ff ff3 fi fh K] is the font-level signature with
+    - the REAL glif codec: [encode_glif] / [parse_glif] (Model/GlifEncode.v, GlifParse.v) on the
+      glyph type of Model/Glif.v, names assigned as Layer::load_impl does;
+    - the REAL font info: the validated FontInfo view of C13 (Model/FontInfo.v) split into
+      "rest" and guidelines, written by [fi_save] + [encode], read by [fi_load], validated by
+      [fi_validate];
+    - the REAL groups and kerning maps of Model/Groups.v with the real validator
+      [validate_groups], the real emptiness tests / defaults and the real kerning upconversion;
+    - the REAL plist values and dictionaries of Model/Plist.v ([Dictionary::get / insert / remove]);
+    - a record [K : codecs] of the seven file codecs of the plist layer (metainfo, lib, groups,
+      kerning, layercontents, contents, layerinfo), the colour type and [str::to_lowercase].
+    PROVED for this instance (Proofs/FontRealP.v, [real_sig_ok]): the laws of [sig_ok] about the
+    glif codec and glyph names (from C02_roundtrip_partial, C02_options_irrelevant), about the
+    font-info codec, its default and validator (from C13_entry_points_agree), about the groups
+    validator, emptiness tests and defaults, and the whole dictionary algebra.
+
+    Hypotheses that remain, and what would discharge them:
+    - [codecs_ok K]: each of the seven file codecs is lawful (round trip on its domain, options
+      irrelevant), metainfo / layercontents / contents / groups come back exactly, the lib and
+      layerinfo equalities are the dictionary equality, and which values each writer represents.
+      All of these are facts about the plist layer only: the L1 hypothesis
+      plist_read (plist_write v) = Some v over Model/Plist.v plus the serde shape of each file
+      (Schema-style decode_encode); the kerning file additionally needs Model/Num.v (the
+      integer-or-float writer is exact since cf70ca2).  Satisfiable: [C01_real_codecs_satisfiable].
+    - [L1_glif]: f64 Display / from_str invert on finite numbers, the {:.3} rendering of a colour
+      channel holds no comma and reads back inside 0..1, {:04X} reads back (the L1 hypotheses of
+      C02_roundtrip_partial; validated on every value by the C02 run).
+    - in [font_valid]: every glyph satisfies [wf_glyph] — the glyph rules of C12, finite numbers, a
+      surviving note, canonical numbers / colours, and NO LIBS (the composite glif round trip of
+      C02 is proved for lib-free glyphs only; glyphs with libs stay covered by the parametric
+      theorem and the run) — and the font info satisfies [wf_sinfo] (FontInfo::validate accepts,
+      integer fields within their machine types).
+    On that domain glyphs, font info and groups come back exactly. *)
+Theorem C01_roundtrip_real : forall pf ff ff3 fi fh (K : codecs),
+  L1_glif pf ff ff3 fh -> codecs_ok K ->
+  forall o (f : font (real_sig pf ff ff3 fi fh K)),
+  font_valid (real_sig pf ff ff3 fi fh K) f ->
+  exists t, save (real_sig pf ff ff3 fi fh K) o f = Ok t /\
+            spec_write (real_sig pf ff ff3 fi fh K) norad_choices o f = Some t /\
+            exists f', load (real_sig pf ff ff3 fi fh K) t = Ok f' /\ font_equiv (real_sig pf ff ff3 fi fh K) f f'.
+Proof. exact roundtrip_real. Qed.
+Theorem C01_roundtrip_real_glyphs_exact : forall pf ff ff3 fi fh (K : codecs)
+  (f f' : font (real_sig pf ff ff3 fi fh K)),
+  font_equiv (real_sig pf ff ff3 fi fh K) f f' ->
+  map l_glyphs (f_layers _ f) = map l_glyphs (f_layers _ f').
+Proof. exact roundtrip_real_glyphs_exact. Qed.
+(** the remaining law hypothesis is satisfiable (every lawful signature provides it), and the glyph
+    domain holds a glyph with code points, a note, an anchor, a component and a contour *)
+Example C01_real_codecs_satisfiable : codecs_ok id_codecs.
+Proof. exact id_codecs_ok. Qed.
+Example C01_real_glyph_domain_inhabited : forall pf ff3, wf_glyph pf ff3 g_real_sample.
+Proof. exact real_sample_wf. Qed.
+Example C01_real_info_domain_inhabited : wf_sinfo si_real_sample.
+Proof. exact si_real_sample_wf. Qed.
